@@ -1,0 +1,60 @@
+//go:build verif
+
+// Contracts for contract-based verification (/verif). Comment-only: with or without the
+// build tag "verif" this file adds nothing to the compiled package.
+
+package rapid
+
+// Ghost events of the orchestration skeleton.
+//@ event SetRegisterCount = call core.(InitFlowSynchronization).SetExternalAgentsRegisterCount
+//@ event CreateExt = call core.(RegistrationService).CreateExternalAgent
+//@ event CreateExtFailed = ret core.(RegistrationService).CreateExternalAgent when r1 != nil
+//@ event CountOverLimit = ret core.(RegistrationService).CountAgents when r0 > core.MaxAgentsAllowed
+//@ event ExecAny = call supervisor/model.(ProcessSupervisor).Exec
+//@ event ExecExtension = call supervisor/model.(ProcessSupervisor).Exec when a2.Logging.Managed.Topic == supvmodel.RtExtensionManagedLoggingTopic
+//@ event ExecRuntime = call supervisor/model.(ProcessSupervisor).Exec when a2.Logging.Managed.Topic == supvmodel.RuntimeManagedLoggingTopic
+//@ event ExecFailed = ret supervisor/model.(ProcessSupervisor).Exec when r0 != nil
+//@ event LaunchErrorRecorded = call rapid.agentLaunchError
+//@ event ExitChannelCreated = call rapid.(*shutdownContext).createExitedChannel
+//@ event AwaitRegistered = call core.(InitFlowSynchronization).AwaitExternalAgentsRegistered
+//@ event AwaitRegisteredOK = ret core.(InitFlowSynchronization).AwaitExternalAgentsRegistered when r0 == nil
+//@ event InitExtensions = call rapid.doInitExtensions
+//@ event InitExtensionsOK = ret rapid.doInitExtensions when r0 == nil
+//@ event ExtensionsEnabled = ret extensions.AreEnabled when r0
+//@ event ExtensionsDisabled = ret extensions.AreEnabled when !r0
+//@ event AwaitRestoreReady = call core.(InitFlowSynchronization).AwaitRuntimeRestoreReady
+//@ event AwaitRestoreReadyOK = ret core.(InitFlowSynchronization).AwaitRuntimeRestoreReady when r0 == nil
+//@ event RegistrationTurnOff = call core.(RegistrationService).TurnOff
+//@ event RegisteredSize = ret core.(RegistrationService).GetRegisteredAgentsSize
+//@ event SetInitAgentsCount = call core.(InitFlowSynchronization).SetAgentsReadyCount
+//@ event AwaitInitAgentsReady = call core.(InitFlowSynchronization).AwaitAgentsReady
+//@ event AwaitInitAgentsReadyOK = ret core.(InitFlowSynchronization).AwaitAgentsReady when r0 == nil
+//@ event PreregisterRuntime = call core.(RegistrationService).PreregisterRuntime
+
+// lifecycle events (C15)
+//@ event EvInitStart = call interop.(EventsAPI).SendInitStart
+//@ event EvInitRuntimeDone = call interop.(EventsAPI).SendInitRuntimeDone
+//@ event EvInitRuntimeDoneSuccess = call interop.(EventsAPI).SendInitRuntimeDone when a1.Status == telemetry.RuntimeDoneSuccess
+//@ event EvInitReport = call interop.(EventsAPI).SendInitReport
+//@ event EvExtensionInit = call interop.(EventsAPI).SendExtensionInit
+//@ event AgentsInfoRead = ret core.(RegistrationService).AgentsInfo
+
+//@ func agentLaunchError
+//@   requires agent != nil
+
+// C03: one registration-count, then per path one agent record and one exec, then wait for all registrations
+//@ func doInitExtensions
+//@   requires execCtx != nil && env != nil
+//@   ensures [count-is-number-of-paths] delta(SetRegisterCount) == 1 && lastarg(SetRegisterCount, 1) == len(agentPaths) % 65536
+//@   ensures [one-agent-and-exec-per-path] r0 == nil ==> delta(CreateExt) == len(agentPaths) && delta(ExecExtension) == len(agentPaths) && delta(ExecAny) == len(agentPaths) && delta(ExitChannelCreated) == len(agentPaths)
+//@   ensures [never-more-execs-than-agents] delta(ExecAny) <= delta(CreateExt) && delta(CreateExt) <= len(agentPaths) && delta(ExecRuntime) == 0
+//@   ensures [returns-ok-only-after-all-registered] r0 == nil ==> delta(AwaitRegistered) == 1 && delta(AwaitRegisteredOK) == 1 && (delta(ExecAny) >= 1 ==> last(ExecAny) < first(AwaitRegistered))
+//@   ensures [over-limit-not-launched] delta(CountOverLimit) >= 1 ==> r0 == core.ErrTooManyExtensions && delta(ExecAny) < delta(CreateExt) && delta(LaunchErrorRecorded) == 1
+//@   ensures [failed-launch-recorded] delta(ExecFailed) >= 1 ==> r0 != nil && delta(LaunchErrorRecorded) == 1 && delta(AwaitRegistered) == 0
+//@   loop range agentPaths: invariant [count-set-once] delta(SetRegisterCount) == 1 && lastarg(SetRegisterCount, 1) == len(agentPaths) % 65536
+//@   loop range agentPaths: invariant [bounds] 0 <= rangeindex + 1 && rangeindex + 1 <= len(agentPaths)
+//@   loop range agentPaths: invariant [one-agent-per-path] delta(CreateExt) == rangeindex + 1 && delta(CreateExtFailed) == 0
+//@   loop range agentPaths: invariant [one-exec-per-path] delta(ExecAny) == rangeindex + 1 && delta(ExecExtension) == rangeindex + 1 && delta(ExecRuntime) == 0 && delta(ExecFailed) == 0
+//@   loop range agentPaths: invariant [one-exit-channel-per-path] delta(ExitChannelCreated) == rangeindex + 1
+//@   loop range agentPaths: invariant [exec-in-the-past] last(ExecAny) <= now()
+//@   loop range agentPaths: invariant [not-yet] delta(AwaitRegistered) == 0 && delta(AwaitRegisteredOK) == 0 && delta(CountOverLimit) == 0 && delta(LaunchErrorRecorded) == 0
